@@ -52,6 +52,16 @@ pub fn check(t: &Trace<'_>, out: &mut CaseOut) -> bool {
         return false;
     }
     out.count("reconnects_judged", 1);
+    // what the connection negotiated is what this CONNACK says, nothing left over from earlier ones
+    if let (Outcome::Ok(_), Some(a)) = (&cop.outcome, cop.snap_after.as_ref()) {
+        let want_mps = cinfo.mps;
+        let want_qos = cinfo.maxqos;
+        let want_ka = cinfo.ska.unwrap_or(t.log.cfg.keepalive) as u64 * 1000;
+        if a.maximum_packet_size != want_mps || a.max_qos != want_qos || a.keepalive_ms != want_ka {
+            out.violations.push(viol("C12", "C12/negotiated-values-left-over", format!("conn {}: after connect the session uses Maximum Packet Size {:?}, Maximum QoS {:?}, keep-alive {} ms; this CONNACK says {:?}, {:?}, {} ms", conn, a.maximum_packet_size, a.max_qos, a.keepalive_ms, want_mps, want_qos, want_ka)));
+        }
+        out.count("negotiated_values_compared", 1);
+    }
     match &cop.outcome {
         Outcome::Ok(_) => {}
         Outcome::Err(e) => {
